@@ -892,7 +892,11 @@ def extract_fn(gen, f, probe=False):
       add_op(st, brace, "{ let vx_s%d = %s; let mut vx_i%d: usize = 0;\n while vx_i%d < vx_s%d.len() " % (ordn, expr, ordn, ordn, ordn), o0)
       for text, t in ins:
         add_op(brace, brace, text, t)
-      add_op(brace + 1, brace + 1, " let %s = &vx_s%d[vx_i%d]; vx_i%d += 1;\n" % (pat, ordn, ordn, ordn), o0)
+      if pat.strip().startswith("&") and re.match(r"&\s*(mut\s+)?\w+$", pat.strip()):
+        # `for &x in slice`: the element is copied out (Verus has no reference patterns)
+        add_op(brace + 1, brace + 1, " let %s = vx_s%d[vx_i%d]; vx_i%d += 1;\n" % (pat.strip()[1:].strip(), ordn, ordn, ordn), o0)
+      else:
+        add_op(brace + 1, brace + 1, " let %s = &vx_s%d[vx_i%d]; vx_i%d += 1;\n" % (pat, ordn, ordn, ordn), o0)
       cl = match_close(mask, brace)
       add_op(cl + 1, cl + 1, " }", o0)
       continue
